@@ -3877,6 +3877,69 @@ def test_junit_counts(a):
             a.candidates.append(c)
 
 
+def test_junit_case_marks(a):
+    """C16 (`the json / yaml / junit renderings of a test run agree`): build_junit_test_cases turns EVERY passed rule of a test case into a
+    JUnit case marked Pass and EVERY failed rule (an unmet expectation, whatever was evaluated) into one marked Fail, each under the
+    rule's own name - no rule is re-marked (e.g. as skipped) by looking at what was evaluated"""
+    IMPL = r"(?:reporters::test::)?structured::<impl at guard/src/commands/reporters/test/structured\.rs:\d+:\d+: \d+:\d+>::"
+    TC = struct_fields(a.src, "commands/reporters/test/structured.rs", "TestCase")
+    ex = a.exec(IMPL + "build_junit_test_cases", {"next": mirexec.m_iter_next, "iter": mirexec.m_new_iter, "into_iter": mirexec.m_new_iter,
+                                                  "fold": lambda ex, av: ex.opq(), "format": lambda ex, av: ex.opq(), "new": lambda ex, av: ex.opq(),
+                                                  "box_assume_init_into_vec_unsafe": mirexec.m_vec_from_array},
+                log=("push", "next"), unroll=1, max_paths=4000)
+    a.fns.append("commands::reporters::test::structured::TestCase::build_junit_test_cases")
+    a.note_cut("test/junit/case-marks", ex)
+    me = ex.arg_env["_1"]
+    want_mark = {f".{TC.index('passed_rules')}": "Pass", f".{TC.index('failed_rules')}": "Fail"}
+    bad, n = [], 0
+    for p in ex.paths:
+        if p.outcome != "return":
+            bad.append(pc_term(p.pc))
+            continue
+        evs = [e for e in p.events if e[0] == "call" and e[1] in ("next", "push")]
+        terms, stray = [], False
+        i = 0
+        # pushes before the first next() would be cases that belong to no rule
+        while i < len(evs) and evs[i][1] == "push":
+            stray = True
+            i += 1
+        while i < len(evs):
+            nx = evs[i]
+            j = i + 1
+            pushes = []
+            while j < len(evs) and evs[j][1] == "push":
+                pushes.append(evs[j])
+                j += 1
+            i = j
+            if nx[3][0] != "enum":
+                stray = True
+                continue
+            src = ex.iter_src.get(nx[2][0][1], nx[2][0]) if nx[2] and nx[2][0][0] == "opaque" else None
+            o = origin(ex, src) if src is not None else None
+            mark = want_mark.get(o[1][0]) if (o is not None and same(o[0], me) and len(o[1]) == 1) else None
+            el = nx[3][3].get("Some")
+            ok_some = False
+            if mark is not None and len(pushes) == 1 and len(pushes[0][2]) == 2 and pushes[0][2][1][0] == "struct":
+                st = pushes[0][2][1][2].get("status")
+                nm = pushes[0][2][1][2].get("name")
+                on = origin(ex, nm) if nm is not None else None
+                oe = origin(ex, el) if el is not None else None
+                ok_some = (st is not None and st[0] == "variant" and st[2] == mark and on is not None and oe is not None and same(on[0], oe[0])
+                           and list(on[1]) == list(oe[1]) + [".0"])
+            ok_none = not pushes
+            n += 1
+            terms.append(f"(ite (= {nx[3][2]} 1) {'true' if ok_some else 'false'} {'true' if ok_none else 'false'})")
+        good = "false" if stray else "(and true " + " ".join(terms) + ")"
+        bad.append(f"(and {pc_term(p.pc)} (not {good}))")
+    c = a.discharge("test/junit/case-marks", ex, bad,
+                    f"build_junit_test_cases ({n} rule visits over all paths, <= 1 passed and 1 failed rule per list): every rule of passed_rules becomes one JUnit case "
+                    "marked Pass, every rule of failed_rules one marked Fail, under the rule's own name; nothing is pushed outside these visits")
+    if c:
+        c["replay"] = replay_test_renderings(a)
+        c["reproduced"] = c["replay"].get("reproduced", False)
+        a.candidates.append(c)
+
+
 def replay_test_renderings(a):
     """one test file whose cases have 0, 1, 2 and 3 unmet expectations: plain, json, yaml and junit agree on the number of failed rules
     (junit: the failures attributes = the number of <failure> elements = the number json lists)"""
@@ -3916,6 +3979,25 @@ def replay_test_renderings(a):
                             "expected": want})
             if (pj.returncode, px.returncode) != ((7, 7) if want else (0, 0)):
                 out.append({"unmet_expectations_per_case": unmet, "exit_json": pj.returncode, "exit_junit": px.returncode})
+        # unmet expectations on rules that evaluate to SKIP (a `when` guard that does not hold): they are failed rules like any other
+        open(os.path.join(d, "r.guard"), "w").write("rule r1 { a == 1 }\nrule sk when a == 9 { a == 1 }\nrule sk2 when a == 9 { a == 1 }\n")
+        for exps, want in (({"r1": "PASS", "sk": "PASS"}, 1), ({"r1": "PASS", "sk": "FAIL", "sk2": "PASS"}, 2), ({"r1": "PASS", "sk": "SKIP"}, 0), ({"r1": "FAIL", "sk": "PASS"}, 2)):
+            open(os.path.join(d, "t.yaml"), "w").write("- name: c0\n  input:\n    a: 1\n  expectations:\n    rules:\n" + "".join(f"      {k}: {v}\n" for k, v in exps.items()))
+            pj = run("json")
+            try:
+                rep = _json.loads(pj.stdout)
+                rep = rep[0] if isinstance(rep, list) else rep
+                nj = sum(len(t.get("failed_rules", [])) for t in rep.get("Ok", rep).get("test_cases", []))
+            except Exception:
+                nj = None
+            px, pp = run("junit"), run(None)
+            n_elem = len(_re.findall(r"<failure\b", px.stdout))
+            attrs = [int(x) for x in _re.findall(r"<testsuites?\b[^>]*\bfailures=\"(\d+)\"", px.stdout)]
+            if nj != want or n_elem != want or any(x != want for x in attrs) or not attrs:
+                out.append({"expectations (sk, sk2 evaluate to SKIP)": exps, "json_failed_rules": nj, "junit_failure_elements": n_elem, "junit_failures_attributes": attrs,
+                            "expected": want})
+            if (pj.returncode, px.returncode, pp.returncode) != ((7, 7, 7) if want else (0, 0, 0)):
+                out.append({"expectations (sk, sk2 evaluate to SKIP)": exps, "exit_json": pj.returncode, "exit_junit": px.returncode, "exit_plain": pp.returncode})
         return {"reproduced": bool(out), "mismatches": out[:4]}
     finally:
         shutil.rmtree(d, ignore_errors=True)
@@ -4613,7 +4695,7 @@ SITES = {
     "C12": [sarif_per_file_results, structured_report, junit_test_case, junit_report, data_input_wiring, data_input_params_wiring, structured_merge_closure, test_get_by_result, test_structured_evaluate, report_combine_union],
     "C07": [flags_verdict_wiring, reporter_chain, library_entry_wiring, sarif_one_result_per_message, sarif_per_file_results, junit_escaping_sites, report_combine_union, structured_report, junit_test_case, junit_report, validate_execute_step,
             data_input_params_wiring, structured_merge_closure],
-    "C16": [test_generic_report, test_get_by_result, test_get_by_rules, test_structured_evaluate, test_result_exit_code, test_junit_counts, test_data_per_spec],
+    "C16": [test_generic_report, test_get_by_result, test_get_by_rules, test_structured_evaluate, test_result_exit_code, test_junit_counts, test_junit_case_marks, test_data_per_spec],
     "C02": [param_ctx_end_record, scope_delegations, param_rule_call],
     "C09": [report_partition, report_rule_listing, report_clause_content, report_combine_union, unary_empty_on_expr, param_ctx_end_record],
     "C10": [report_clause_content],
